@@ -261,7 +261,11 @@ func VerifyFunc(P *Program, fn *ssa.Function, c *Contract, cf *ContractFile, ins
 				}
 			}
 		}
-		e.frameObligations(f, c, st, rst, args, fn)
+		if c.SkipFrame == "" {
+			e.frameObligations(f, c, st, rst, args, fn)
+		} else {
+			e.assumed[fmt.Sprintf("frame condition of %s is assumed, not proved (%s)", name, c.SkipFrame)] = true
+		}
 		// lock set
 		exp := cloneMap(entryLocks)
 		ctx := f.evalCtx(rst, nil)
@@ -303,6 +307,9 @@ func VerifyFunc(P *Program, fn *ssa.Function, c *Contract, cf *ContractFile, ins
 	fr.BindErrs = e.errs
 	fr.RangeObls = e.rangeObls
 	fr.OverflowAssumed = e.overflowAssumed
+	if e.skippedPanics > 0 {
+		e.assumed[fmt.Sprintf("%d run-time panic / overflow obligations of %s are assumed, not proved (%s)", e.skippedPanics, name, c.SkipPanics)] = true
+	}
 	if e.overflowAssumed > 0 {
 		e.assumed[fmt.Sprintf("machine arithmetic treated as mathematical in %d operations of %s (overflow assumed absent)", e.overflowAssumed, name)] = true
 	}
@@ -509,7 +516,7 @@ func (e *Engine) frameGoals(f *Frame, c *Contract, entry, rst *State, fn *ssa.Fu
 		out = append(out, [3]string{fmt.Sprintf("%s.frame.global.%s", name, g), "package variable " + g + " is written but not named in modifies", "false"})
 	}
 	for _, g := range sortedKeys(rst.ghost) {
-		if strings.HasPrefix(g, "sb.") || strings.HasPrefix(g, "once.") {
+		if strings.HasPrefix(g, "sb.") || strings.HasPrefix(g, "once.") || strings.HasPrefix(g, "lib.") {
 			continue
 		}
 		g0, _ := e.getGhost(entry, g)
